@@ -61,6 +61,7 @@ type world struct {
 	hooks  map[int]*hookFace // logical id -> face
 	extra  []face.LinkService // faces created through faces/create
 	known  map[uint64]bool
+	closed map[int]bool // logical ids closed by a `close` op
 	null   *face.NullLinkService
 	lis    []net.Listener // loopback TCP listeners for tcp4 faces: {T1}, {T2} in URIs
 	conns  []net.Conn
@@ -145,6 +146,21 @@ func (w *world) localURIText(remote, local string) string {
 	return w.portsOut(local)
 }
 
+// closeFace closes a face locally. An outgoing TCP face connects on its own goroutine: closing it
+// before that goroutine has marked it up is a different scenario (the face then stays up), so
+// the close is issued once the face reports Up.
+func (w *world) closeFace(l face.LinkService) {
+	if strings.HasPrefix(l.RemoteURI().Scheme(), "tcp") {
+		waitUntil("flush", func() bool { return l.State() == defn.Up })
+	}
+	l.Close()
+}
+
+func (w *world) goroutineIn(pat string) bool {
+	buf := make([]byte, 1<<18)
+	return strings.Contains(string(buf[:runtime.Stack(buf, true)]), pat)
+}
+
 // trackCreated remembers faces that appeared in the face table (faces/create) for teardown.
 func (w *world) trackCreated() {
 	for _, f := range face.FaceTable.GetAll() {
@@ -204,20 +220,11 @@ func (w *world) teardown() {
 		h.ls.Close()
 		waitUntil("hook face gone", func() bool { return dispatch.GetFace(id) == nil && face.FaceTable.Get(id) == nil })
 	}
-	// Outgoing TCP faces are ended from the peer side (EOF): UnicastTCPTransport.Close() followed by
-	// the deferred Close() of its receive loop blocks for ever on the transport's reconnect channel
-	// and the face would never leave the face table (reported to the lead; not a C17 matter).
-	nTCP := 0
 	for _, l := range w.extra {
-		if strings.HasPrefix(l.RemoteURI().Scheme(), "tcp") {
-			nTCP++
+		if !w.closed[int(w.logical(l.FaceID()))] {
+			w.closeFace(l)
 		}
 	}
-	waitUntil("tcp faces connected", func() bool {
-		w.connMu.Lock()
-		defer w.connMu.Unlock()
-		return len(w.conns) >= nTCP
-	})
 	for _, l := range w.lis {
 		l.Close()
 	}
@@ -229,10 +236,7 @@ func (w *world) teardown() {
 	w.connMu.Unlock()
 	for _, l := range w.extra {
 		id := l.FaceID()
-		if !strings.HasPrefix(l.RemoteURI().Scheme(), "tcp") {
-			l.Close()
-		}
-		waitUntil("created face gone", func() bool { return face.FaceTable.Get(id) == nil })
+		waitUntil("flush", func() bool { return face.FaceTable.Get(id) == nil })
 	}
 	if w.null != nil {
 		id := w.null.FaceID()
@@ -346,6 +350,7 @@ func (w *world) setup(localhop bool, fibAlg string) string {
 			}
 		}(l)
 	}
+	w.closed = map[int]bool{}
 	w.known = map[uint64]bool{}
 	for _, f := range face.FaceTable.GetAll() {
 		w.known[f.FaceID()] = true
